@@ -9,7 +9,10 @@
 (* cd under currency; every presented total has cd decimals.               *)
 (*                                                                         *)
 (* Document == [cd, rr, inc, rounding : Opt(Amount),                       *)
-(*   lines : Seq([qty, price, icd, fx : Opt(rate), discounts, charges, taxes]),  *)
+(*   lines : Seq([qty, price, icd, fx : Opt(rate), alt : Opt(Amount),      *)
+(*                discounts, charges, taxes, subs : Seq(sub-line)]),       *)
+(*   sub-line == [qty, price, icd, fx, alt, discounts, charges]: when a    *)
+(*   line has a breakdown its item price is the sum of the sub-line totals *)
 (*   discounts : Seq([pct : Opt, base : Opt, amount, taxes]),              *)
 (*   charges   : Seq([pct : Opt, base : Opt, amount, taxes]),              *)
 (*   advances  : Seq([pct : Opt, amount]),  dues : Seq([pct : Opt, amount])]      *)
@@ -26,9 +29,12 @@ NonZeroPct(o) == Has(o) /\ ~IsZero(Val(o).v)
 (* stage 1: lines *)
 
 \* the item price in the document currency, at no less than the currency's precision
+\* An item in another currency (fx and/or alt given) takes its alternative price in the document
+\* currency when it has one, otherwise it is converted with the exchange rate.
 ItemPrice(l, cd) ==
     LET p0 == RescaleUp(l.price, l.icd)           \* presented in its own currency
-    IN  IF Has(l.fx) THEN Convert(p0, Val(l.fx), cd) ELSE RescaleUp(l.price, cd)
+    IN  IF Has(l.alt) THEN RescaleUp(Val(l.alt), cd)
+        ELSE IF Has(l.fx) THEN Convert(p0, Val(l.fx), cd) ELSE RescaleUp(l.price, cd)
 
 \* a percentage discount/charge is taken of the line sum, or of its explicit base
 PctBase(x, sum, cd, rr) ==
@@ -44,17 +50,35 @@ RECURSIVE SubAll(_, _, _), AddAll(_, _, _)
 SubAll(t, amts, i) == IF i > Len(amts) THEN t ELSE SubAll(ASub(t, amts[i]), amts, i + 1)
 AddAll(t, amts, i) == IF i > Len(amts) THEN t ELSE AddAll(AAdd(t, amts[i]), amts, i + 1)
 
+\* a sub-line is calculated like a line, except that its price is only raised to the working precision
+\* under the precise rule (under 'currency' it keeps the precision it was given)
+CalcSub(sl, cd, rr) ==
+    LET ip   == ItemPrice(sl, cd)
+        p    == IF rr = "precise" THEN RescaleUp(ip, cd + 2) ELSE ip
+        sum  == Rule(rr, cd, AMul(p, sl.qty))
+        das  == [i \in DOMAIN sl.discounts |-> LineDiscAmount(sl.discounts[i], sum, cd, rr)]
+        cas  == [i \in DOMAIN sl.charges |-> LineChargeAmount(sl.charges[i], sl.qty, sum, cd, rr)]
+    IN  [price |-> ip, sum |-> sum, total |-> AddAll(SubAll(sum, das, 1), cas, 1)]
+
+RECURSIVE PSum(_, _, _)
+\* the price of a line with a breakdown: the precision-raising sum of the sub-line totals, rounded to the
+\* finest precision among the sub-lines' (converted) item prices
+BreakdownPrice(scs, cd) ==
+    LET S == {scs[i].price.e : i \in DOMAIN scs}
+        e == CHOOSE x \in S : \A y \in S : y <= x
+    IN  Rescale(PSum(ZeroAt(cd), [i \in DOMAIN scs |-> scs[i].total], 1), e)
+
 CalcLine(l, cd, rr) ==
-    LET ip   == ItemPrice(l, cd)
+    LET scs  == [i \in DOMAIN l.subs |-> CalcSub(l.subs[i], cd, rr)]
+        ip   == IF l.subs = <<>> THEN ItemPrice(l, cd) ELSE RescaleUp(BreakdownPrice(scs, cd), cd)
         p    == RescaleUp(ip, WorkExp(rr, cd))
         sum  == Rule(rr, cd, AMul(p, l.qty))
         das  == [i \in DOMAIN l.discounts |-> LineDiscAmount(l.discounts[i], sum, cd, rr)]
         cas  == [i \in DOMAIN l.charges |-> LineChargeAmount(l.charges[i], l.qty, sum, cd, rr)]
         tot  == AddAll(SubAll(sum, das, 1), cas, 1)
-    IN  [price |-> ip, sum |-> sum, total |-> tot, damts |-> das, camts |-> cas]
+    IN  [price |-> ip, sum |-> sum, total |-> tot, damts |-> das, camts |-> cas, subs |-> scs]
 
 \* precision-raising sum from zero at cd
-RECURSIVE PSum(_, _, _)
 PSum(acc, xs, i) == IF i > Len(xs) THEN acc ELSE PSum(AAdd(MatchPrecision(acc, xs[i]), xs[i]), xs, i + 1)
 
 ---------------------------------------------------------------------------
@@ -99,7 +123,9 @@ Calculate(d) ==
                         LET e == ls[i].price.e IN
                         [price |-> ls[i].price, sum |-> RescaleDown(ls[i].sum, e), total |-> RescaleDown(ls[i].total, e),
                          damts |-> [j \in DOMAIN ls[i].damts |-> RescaleDown(ls[i].damts[j], e)],
-                         camts |-> [j \in DOMAIN ls[i].camts |-> RescaleDown(ls[i].camts[j], e)]]],
+                         camts |-> [j \in DOMAIN ls[i].camts |-> RescaleDown(ls[i].camts[j], e)],
+                         subs  |-> [j \in DOMAIN ls[i].subs |-> [price |-> ls[i].subs[j].price, sum |-> RescaleDown(ls[i].subs[j].sum, e),
+                                                                  total |-> RescaleDown(ls[i].subs[j].total, e)]]]],
           damts |-> [i \in DOMAIN das |-> RescaleDown(das[i], IF Has(d.discounts[i].base) THEN Val(d.discounts[i].base).e ELSE cd)],
           camts |-> [i \in DOMAIN cas |-> RescaleDown(cas[i], IF Has(d.charges[i].base) THEN Val(d.charges[i].base).e ELSE cd)],
           sum |-> Rescale(sum, cd),
